@@ -4,7 +4,8 @@
              6 release the listeners factory  7 release service_init  8 release the clients' teardown
              9 UDP: a datagram is queued behind a suspended handler of the same address
    After every label the internal transitions run to quiescence (gated completions only when released) and one
-   observation is emitted:  L [L [A status ...]; A is_serving; A is_listening]
+   observation is emitted:  L [L [A status ...]; A is_serving; A is_listening; A listener_socket_bound]
+     (the last one is probed from outside the server by binding to its address; the model says is_listening again)
      status per call id: 0 pending, 1 returned, 2 ServerAlreadyRunning, 3 ServerClosedError, 4 BusyResourceError, 5 crashed *)
 From EN Require Import Lib.Bytes Lib.Sx Conc.Lifecycle.
 Open Scope Z_scope.
@@ -56,7 +57,7 @@ Fixpoint run_labels (g : gates) (cs : list Z) (s : st) (stat : list Z) : list sx
   | [] => []
   | c :: cs' =>
       let '(s', stat') := do_label g c s stat in
-      L [L (map A stat'); of_bool (is_serving s'); of_bool (is_listening s')] :: run_labels g cs' s' stat'
+      L [L (map A stat'); of_bool (is_serving s'); of_bool (is_listening s'); of_bool (is_listening s')] :: run_labels g cs' s' stat'
   end.
 
 (* ---- standalone (threaded) servers: BaseStandaloneNetworkServerImpl around a FRESH asynchronous server per
@@ -153,7 +154,7 @@ Fixpoint srun_labels (gated : bool) (cs : list Z) (x : sst) : list sx :=
       let x' := sdo_label gated c x in
       let sv := match arun x' with Some a => is_serving a | None => false end in
       let ls := match arun x' with Some a => is_listening a | None => false end in
-      L [L (map A (sstat x')); of_bool sv; of_bool ls] :: srun_labels gated cs' x'
+      L [L (map A (sstat x')); of_bool sv; of_bool ls; of_bool ls] :: srun_labels gated cs' x'
   end.
 
 Definition run (x : sx) : sx :=
